@@ -1,31 +1,33 @@
-//! Development aid: prints the honest trace of a C10 scenario world (not a check).
+//! Development aid (not a check): prints the home messages of the C10 scenarios.
+
+use ckb_types::{packed, prelude::*};
 
 use crate::verif::props::c10;
-use crate::verif::scen::{self, Env};
-use crate::storage::ScriptType;
-use crate::verif::driver::World;
+use crate::verif::scen::{kind_of, Env};
 
 pub(crate) fn run() -> i32 {
     let env = Env::dummy();
     let w = c10::worlds(&env);
-    let mut world = World::new(vec![w.main.clone(), w.fork.clone()], 4);
-    world.add_peer(1, 0, 12);
-    world.filter_batch = 5;
-    let mut sim = scen::new_sim(&env, scen::default_cfg(), world);
-    sim.record_trace = true;
-    scen::register(
-        &sim,
-        &[
-            (env.scripts.a.clone(), ScriptType::Lock, 0),
-            (env.scripts.t.clone(), ScriptType::Type, 0),
-        ],
-    );
-    sim.connect(1);
-    let r = sim.converge(60);
-    for l in &sim.trace {
-        println!("  {}", l);
+    for scn in c10::ALL_SCN {
+        let (sim, n) = c10::build(&env, &w, scn);
+        for m in sim.queue.iter().take(n) {
+            let mut extra = String::new();
+            if let Ok(msg) = packed::LightClientMessageReader::from_compatible_slice(&m.data) {
+                if let packed::LightClientMessageUnionReader::SendLastStateProof(p) = msg.to_enum() {
+                    let nums: Vec<u64> = p.headers().iter().map(|h| h.header().raw().number().unpack()).collect();
+                    extra = format!(" headers={:?} proof_items={} last={}", nums, p.proof().len(), Unpack::<u64>::unpack(&p.last_header().header().raw().number()));
+                }
+            }
+            println!("{:?}: {} ({} bytes){}", scn, kind_of(m), m.data.len(), extra);
+        }
+        if let Some(req) = sim.sent_log.iter().rev().find_map(|s| {
+            packed::LightClientMessage::from_slice(&s.data).ok().and_then(|m| match m.to_enum() {
+                packed::LightClientMessageUnion::GetLastStateProof(r) => Some(r),
+                _ => None,
+            })
+        }) {
+            println!("   last request: start={} n_diffs={} boundary={:#x}", Unpack::<u64>::unpack(&req.start_number()), req.difficulties().len(), Unpack::<ckb_types::U256>::unpack(&req.difficulty_boundary()));
+        }
     }
-    println!("converge {:?} bans {:?}", r, sim.bans());
-    println!("{}", sim.c().light_print());
     0
 }
